@@ -317,7 +317,7 @@ const tokenForm = "client_id=oras-go&grant_type=password&password=p&scope=reposi
 const tokenFormPush = "client_id=oras-go&grant_type=password&password=p&scope=repository%3Ar%3Apull%2Cpush&service=scripted&username=u"
 
 func (c *scriptCase) tokenFormOf() string {
-	if c.Op == "Z" {
+	if c.Op == "Z" || c.Manifest != "" {
 		return tokenFormPush
 	}
 	return tokenForm
@@ -1514,6 +1514,10 @@ func genScript(r *common.Rand, big bool) *scriptCase {
 	if c.Op == "Q" {
 		// a Bearer challenge early on, and a token service that needs a few attempts
 		c.Manifest, c.PreAuth = "", false
+		if (c.Body == "R" || c.Body == "O") && c.BigLen == 0 && r.Chance(1, 4) {
+			// a manifest push (buffered for the auth client) whose token request is scripted
+			c.Manifest, c.UnknownLen, c.Method = "M", false, ""
+		}
 		c.TokenPost = r.Chance(1, 2)
 		k := r.Intn(3)
 		for len(c.Script) <= k {
@@ -2291,7 +2295,7 @@ func coverageFloors(t *testing.T) {
 		"enumerated": 1000, "enumerated_cancel_instants": 500, "enumerated_uploads": 1000, "enumerated_manifest": 20,
 		"point_BD": 500, "point_BP": 3000, "point_DP": 1000, "point_seen_W": 2000, "point_seen_FAIL": 100,
 		"real_transport": 4, "real_transport_complete_bodies": 2, "token_scenarios": 100, "oracle_only_default_policy": 100,
-		"token_attempts_2": 20, "parse_int": 2000, "parse_int_nonzero": 1000, "enumerated_tokens": 300, "op_Y": 50, "op_y": 50, "op_Z": 80, "enumerated_push_tokens": 300,
+		"token_attempts_2": 20, "parse_int": 2000, "parse_int_nonzero": 1000, "enumerated_tokens": 300, "op_Y": 50, "op_y": 50, "op_Z": 80, "enumerated_push_tokens": 300, "op_QM": 15,
 	}
 	var low []string
 	for k, min := range floors {
